@@ -7,7 +7,7 @@ trap 'rm -rf "$D"' EXIT
 if [[ "$P" == REV:* ]]; then
   git -C /repo archive "${P#REV:}" okdmr | tar -x -C "$D"
 else
-  mkdir -p "$D/okdmr"; cp -r /repo/okdmr/dmrlib "$D/okdmr/dmrlib"
+  mkdir -p "$D/okdmr"; cp -r /repo/okdmr/dmrlib "$D/okdmr/dmrlib"; cp -r /repo/okdmr/tests "$D/okdmr/tests"
   (cd "$D" && git init -q . 2>/dev/null && git apply --whitespace=nowarn "$P")
 fi
 rc_all=0
